@@ -24,15 +24,16 @@ type M = trace.M
 
 // Runner drives one real shard and logs ShardTrace events.
 type Runner struct {
-	Cfg    Config
-	R      *rand.Rand
-	G      *Gen
-	TW     *trace.Writer
-	Dir    string
-	DBFile string
-	CM     *cache.Manager
-	Shard  *shard.Shard
-	Col    models.Collection
+	afterRepeat bool // the last request named a point twice (RepeatProbe)
+	Cfg         Config
+	R           *rand.Rand
+	G           *Gen
+	TW          *trace.Writer
+	Dir         string
+	DBFile      string
+	CM          *cache.Manager
+	Shard       *shard.Shard
+	Col         models.Collection
 	// generation bias only (never used for verdicts)
 	believedLive map[int]bool
 	believedVals map[int]map[string]any // id -> property -> last value written
@@ -460,10 +461,10 @@ func (r *Runner) GenBatch() Batch {
 		for _, id := range r.pickIDs(n, 0.8) {
 			b = append(b, r.gen(id, true, 0.5))
 		}
-		if r.Cfg.RepeatUpd && !r.Cfg.hasGraph() && len(b) > 0 && r.R.Intn(2) == 0 {
+		if r.Cfg.RepeatUpd && !r.Cfg.hasUnorderedIndex() && len(b) > 0 && r.R.Intn(2) == 0 {
 			// the same point named twice in one update: applied one after the other
-			// (not with a graph index: its insert workers take the two changes of one
-			// node in either order, the outcome is not defined)
+			// (not with a graph or text index: their workers take the two changes of one
+			// point in either order; see RepeatProbe and the known finding C05-repeat)
 			id := b[r.R.Intn(len(b))].ID
 			if r.R.Intn(2) == 0 {
 				b = append(b, r.gen(id, true, 0.5))
@@ -500,9 +501,9 @@ func (r *Runner) RandomBatch() string {
 	return b.Kind
 }
 
-func (c Config) hasGraph() bool {
+func (c Config) hasUnorderedIndex() bool {
 	for _, p := range c.Props {
-		if p.Type == models.IndexTypeVectorVamana {
+		if p.Type == models.IndexTypeVectorVamana || p.Type == models.IndexTypeText {
 			return true
 		}
 	}
